@@ -293,10 +293,10 @@ PROPS = {
     "C01": dict(streams=[dict(harness="slotfrag", model="slot", oracle=None, quick=6000, thorough=60000, nontrivial=lambda f, impl: len(impl) > 1 and impl[1] != b"M"),
                          dict(harness="slot", model=None, oracle_py=slot_oracle, quick=9000, thorough=120000,
                               nontrivial=lambda f, impl: len(impl) > 2 and impl[2] not in (b"-", b"rejected"))],
-                tie="Model/Pflag.v traverse (one command, long-form words) <-> real `_carapace export` on the same flags and line: the slot (flag value + prefix / bool value / positional i / dash i / flag names / message) must be equal",
-                rule="slotfrag: one cobra command with 0-4 flags of kinds bool/count/string/stringSlice/optional-argument, both interspersed modes, 0-5 typed words out of "
-                     "{--name, --name=value (a value the type accepts; for strings also empty, a=b, -, --), --namex, --, empty word, --unknown, --=x, ---x, plain words}, current word "
-                     "empty / plain / partial or complete --name / --name=partial; slot: generated command TREES (depth <= 3, aliases, persistent / hidden / deprecated flags, "
+                tie="Model/Pflag.v traverse (one command; long flags, shorthand words and chains, lone dash, --) <-> real `_carapace export` on the same flags and line: the slot (flag value + prefix / bool value / positional i / dash i / flag names / message) must be equal",
+                rule="slotfrag: one cobra command with 0-4 flags of kinds bool/count/string/stringSlice/optional-argument (with or without shorthand), both interspersed modes, 0-5 typed words out of "
+                     "{--name, --name=value (a value the type accepts; for strings also empty, a=b, -, --, -x), --namex, shorthand words (-s, chains of 1-3 letters, -svalue, -s=value, unknown letters, trailing =), "
+                     "--, lone dash, empty word, --unknown, --=x, ---x, plain words}, current word empty / plain / -- / partial or complete --name / --name=partial; slot: generated command TREES (depth <= 3, aliases, persistent / hidden / deprecated flags, "
                      "shorthands, shorthand chains, -s=v, non-interspersed commands, hidden / deprecated sub-commands), 0-4 typed words from the tree's own vocabulary plus "
                      "--, -, empty, unknown flags; every flag / positional / dash slot of every command carries its own marker action; the completed line is executed by a "
                      "fresh identical tree and the slot that received the completed word is compared; non-trivial = a slot marker was offered and the program accepts the line"),
